@@ -322,7 +322,7 @@ def engage_rule(chk, db):
         chk.analysis_broken("ENGAGE: only %d optional members take another optional (floor 6)" % n)
 
 
-META_EXTRA = "ENGAGE (optional from optional: target ends in the source's engagement state; the source is dereferenced only where tested)."
+META_EXTRA = "ENGAGE (optional from optional: target ends in the source's engagement state; the source is dereferenced only where tested); PARAM."
 META = (META[0] + " " + META_EXTRA, META[1])
 
 
